@@ -168,6 +168,24 @@ func verifyFunction(w *World, ss *SpecSet, fn *ssa.Function, spec *FuncSpec) (re
 		e.ctx.assume(v.T)
 		e.trust("package initialiser fact (assumed): " + g.Name + ": " + g.Src)
 	}
+	// ghost assignments at entry
+	for _, gs := range spec.GhostSets {
+		if gs.OnStore != "@entry" {
+			continue
+		}
+		g, ok := ss.GhostVars[gs.Var]
+		if !ok {
+			e.specErrors = append(e.specErrors, "ghostset: unknown ghost variable "+gs.Var)
+			continue
+		}
+		env := e.specEnv(fr, st, nil)
+		for k, v := range fr.entryParams {
+			env.vars[k] = v
+		}
+		v := env.eval(gs.E)
+		env.ghostVar(g)
+		e.setHeap(st, "G$"+gs.Var, v.T)
+	}
 	// vacuity: preconditions together with the background facts are satisfiable
 	{
 		o := &Obligation{Name: e.key + "#vac-req@1", Kind: "vac-req", Func: e.key, Pos: res.Pos,
